@@ -316,6 +316,8 @@ func runC07(r *fw.Run, p *fw.Program) {
 	}
 	// halt_error output (shared with C17.go): string raw, null nothing, everything else compact JSON + newline
 	c17HaltPrintAs(r, p, "C07.haltprint")
+	// jq values are immutable
+	jqImmutAs(r, p, "C07.immut")
 }
 
 // c07EmbeddedOnly restricts the jq model to the sources fq really bundles: files matched by a
